@@ -501,14 +501,15 @@ def feat_config_dir():
 
 
 KERNEL_SRCS = ['kernel/backend.cpp', 'kernel/runtime.cpp', 'kernel/util/memory_pool.cpp', 'kernel/util/dist.cpp', 'kernel/util/statistics.cpp',
-               'kernel/util/dist_file_io.cpp', 'kernel/util/property_map.cpp', 'kernel/util/kahan_summation.cpp']
+               'kernel/util/dist_file_io.cpp', 'kernel/util/property_map.cpp', 'kernel/util/kahan_summation.cpp',
+               'kernel/adjacency/coloring.cpp', 'kernel/adjacency/cuthill_mckee.cpp', 'kernel/adjacency/graph.cpp', 'kernel/adjacency/permutation.cpp']
 
 
 def native_build_run(src_path, exe, asan=True, timeout=300, full=False):
     inc = '-I%s -I%s' % (E.REPO, feat_config_dir())
     full = full or 'native glue' in open(src_path).read()
     srcs = ' '.join(os.path.join(E.REPO, f) for f in (KERNEL_SRCS if full else KERNEL_SRCS[:1]))
-    cmd = 'g++ -std=c++17 -O0 -g -w %s %s %s %s -o %s' % ('-fsanitize=address -fno-omit-frame-pointer' if asan else '', inc, src_path, srcs, exe)
+    cmd = 'g++ -std=c++17 -O0 -g -w -pthread %s %s %s %s -o %s' % ('-fsanitize=address -fno-omit-frame-pointer' if asan else '', inc, src_path, srcs, exe)
     rc, out, err, dt = E.sh(cmd, timeout, mem_kb=64 * 1024 * 1024 * 4)
     if rc != 0:
         return None, 'native build failed:\n' + (err or out)[-3000:], cmd
